@@ -48,10 +48,23 @@ func encodeCmd(args [][]byte) []byte {
 
 func TestGovcBoundedRoundTrip(t *testing.T) {
 	alpha := []byte{'\r', '\n', 0, 'a', 0xff}
-	maxArgs, maxLen, maxCuts := 2, 2, 2
+	// quick: <= 2 arguments of <= 2 bytes, <= 3 reads. thorough: the same commands under <= 4 reads, and then
+	// <= 3 arguments of <= 1 byte under <= 4 reads (about 2 million cases; <= 3 arguments of <= 2 bytes under 4 reads
+	// would be 10^8 cases)
+	configs := [][3]int{{2, 2, 2}}
 	if os.Getenv("GOVC_BOUNDED_TIER") == "thorough" {
-		maxArgs, maxLen, maxCuts = 3, 2, 3
+		configs = [][3]int{{2, 2, 3}, {3, 1, 3}}
 	}
+	cases, distinct := 0, 0
+	seen := map[string]bool{}
+	for _, cfgN := range configs {
+		maxArgs, maxLen, maxCuts := cfgN[0], cfgN[1], cfgN[2]
+		c02RoundTrip(t, alpha, maxArgs, maxLen, maxCuts, &cases, &distinct, seen)
+	}
+	fmt.Printf("GOVC-BOUNDED cases=%d distinct=%d\n", cases, distinct)
+}
+
+func c02RoundTrip(t *testing.T, alpha []byte, maxArgs, maxLen, maxCuts int, casesP, distinctP *int, seen map[string]bool) {
 	var words [][]byte
 	var gen func(cur []byte)
 	gen = func(cur []byte) {
@@ -78,14 +91,17 @@ func TestGovcBoundedRoundTrip(t *testing.T) {
 		}
 	}
 	genCmd(nil)
-	cases, distinct := 0, 0
-	seen := map[string]bool{}
 	check := func(stream []byte, want [][][]byte, cuts []int) {
-		cases++
-		key := string(stream) + fmt.Sprint(cuts)
-		if !seen[key] {
-			seen[key] = true
-			distinct++
+		*casesP++
+		// (the enumeration visits every (stream, cuts) pair once; the explicit set is kept while it is small)
+		if len(seen) < 1500000 {
+			key := string(stream) + fmt.Sprint(cuts)
+			if !seen[key] {
+				seen[key] = true
+				*distinctP++
+			}
+		} else {
+			*distinctP++
 		}
 		ctx, cancel := context.WithCancel(context.Background())
 		defer cancel()
@@ -139,5 +155,4 @@ func TestGovcBoundedRoundTrip(t *testing.T) {
 			cutSets(len(s2), 1, 1, nil, func(cuts []int) { check(s2, [][][]byte{c, c2}, cuts) })
 		}
 	}
-	fmt.Printf("GOVC-BOUNDED cases=%d distinct=%d\n", cases, distinct)
 }
